@@ -3,14 +3,19 @@
 (* (harness/virtmem.cpp, addresses compressed by checks/x01.py) is accepted iff every event is allowed by   *)
 (* the contract VirtMem.tla in the state the preceding events produced.                                     *)
 (*                                                                                                          *)
-(* An event the contract does not allow is reported as  <<"REJ", line, event, reasons>>  and validation      *)
-(* resumes at the next execution (Reset line), so that one TLC run finds every rejected execution of a      *)
-(* file.  With STRICT=1 in the environment the specification is stuck instead and the POSTCONDITION fails.  *)
-(* The state invariants CInv are checked in every state on top of that.                                     *)
+(* An event the contract does not allow is reported as  <<"REJ", line, event, reasons>>  (each reason once   *)
+(* per execution) and validation goes on - the contract's effects are total - so that one TLC run finds     *)
+(* every rejected execution of a file and every distinct reason in it.  Events after which the state cannot *)
+(* be tracked (ABORT = crash of the traced process, a return without its call) abandon the execution:       *)
+(* validation resumes at the next Reset line.  The contract's state invariants are evaluated in every state *)
+(* and reported the same way (at the following event; the runner ends every file with a Reset line).        *)
+(* With STRICT=1 in the environment a rejected event leaves the specification stuck instead and the         *)
+(* POSTCONDITION fails.                                                                                     *)
 EXTENDS VirtMem, TraceLib
 
-VARIABLE l
-tvars == <<cvars, l>>
+VARIABLES l,      \* next line of the trace
+          said    \* reasons already reported for the execution in progress
+tvars == <<cvars, l, said>>
 
 T == TraceLog
 N == Len(T)
@@ -19,16 +24,17 @@ Strict == "STRICT" \in DOMAIN IOEnv /\ IOEnv.STRICT = "1"
 RECURSIVE NextReset(_)
 NextReset(k) == IF k > N THEN N + 1 ELSE IF T[k].e = "Reset" THEN k ELSE NextReset(k + 1)
 
-TInit == CInit /\ l = 1 /\ InitProgress
+TInit == CInit /\ l = 1 /\ said = {} /\ InitProgress
 
 TNext == /\ l <= N
          /\ LET ev == T[l]
-                why == Why(ev) IN
-            IF why = {} THEN Effect(ev) /\ l' = l + 1
-            ELSE /\ ~Strict
-                 /\ PrintT(<<"REJ", l, ev.e, why>>)
-                 /\ l' = NextReset(l + 1)
-                 /\ UNCHANGED cvars
+                why == Why(ev) \cup InvWhy
+                new == why \ said IN
+            /\ (IF why = {} THEN TRUE ELSE ~Strict)
+            /\ (IF new = {} THEN TRUE ELSE PrintT(<<"REJ", l, ev.e, new>>))
+            /\ IF why # {} /\ Hard(ev)
+                 THEN l' = NextReset(l + 1) /\ said' = said \cup new /\ UNCHANGED cvars
+                 ELSE Effect(ev) /\ l' = l + 1 /\ said' = IF ev.e = "Reset" THEN {} ELSE said \cup new
 
 TSpec == TInit /\ [][TNext]_tvars
 Progress == NoteProgress(l)
